@@ -68,6 +68,9 @@ pub struct Case {
     /// https origin: nothing of the first hop may be carried into the tunnel
     #[serde(default)]
     pub via_redirect: bool,
+    /// the request is made through a Session that carries default headers (a token and a cookie meant for the origin)
+    #[serde(default)]
+    pub session: bool,
 }
 
 pub struct C12;
@@ -155,7 +158,15 @@ fn run_one(case: &Case, reply_events: Vec<Ev>, head_len: usize, head_complete: b
     });
     let proxy_url = url::Url::parse(&case.proxy.render()).expect("proxy url");
     let start_url = if case.via_redirect { "http://start.test/begin".to_string() } else { origin.render() };
-    let mut rb = attohttpc::post(start_url)
+    let m_sess = format!("MSESSION{tag}");
+    let m_cookie = format!("MCOOKIE{tag}");
+    let mut sess = attohttpc::Session::new();
+    if case.session {
+        sess.header("X-Session-Token", m_sess.as_str());
+        sess.header("Cookie", format!("sid={m_cookie}"));
+        ctx.label("session-default-headers");
+    }
+    let mut rb = if case.session { sess.post(start_url) } else { attohttpc::post(start_url) }
         .proxy_settings(attohttpc::ProxySettings::builder().https_proxy(proxy_url.clone()).http_proxy(proxy_url).build())
         .header("X-Marker", m_header.as_str())
         .text(m_body.clone());
@@ -189,6 +200,8 @@ fn run_one(case: &Case, reply_events: Vec<Ev>, head_len: usize, head_complete: b
         ("authorization (base64)", basic_b64),
         ("bearer token", m_bearer.clone().into_bytes()),
         ("request header", m_header.clone().into_bytes()),
+        ("session default header", m_sess.clone().into_bytes()),
+        ("session cookie", m_cookie.clone().into_bytes()),
         ("request body", m_body.clone().into_bytes()),
         ("url userinfo", m_uinfo.clone().into_bytes()),
         ("request path", b"/secret/path".to_vec()),
@@ -375,15 +388,15 @@ Oracle P1-P5 over the ordered write/serve log. non-trivial = non-2xx with body >
             prop_oneof![3 => Just(Mode::Danger), 2 => (any::<bool>(), any::<bool>()).prop_map(|(present_proxy_cert, ip_origin)| Mode::Verify { present_proxy_cert, ip_origin })],
             0u8..3,
             0u8..4,
-            prop::bool::weighted(0.25),
+            (prop::bool::weighted(0.25), any::<bool>()),
         )
-            .prop_map(|(origin_host, origin_port, proxy, mut reply, seg, seed, mode, auth, declare, via_redirect)| {
+            .prop_map(|(origin_host, origin_port, proxy, mut reply, seg, seed, mode, auth, declare, (via_redirect, session))| {
                 reply.declare = declare;
                 // a 2xx reply never carries a body here (bytes after the head would be fed to TLS); keep the head intact half of the time
                 if (200..300).contains(&reply.status) {
                     reply.body = ReplyBody::None;
                 }
-                Case { origin_host, origin_port, proxy, reply, seg, seed, mode, auth, via_redirect }
+                Case { origin_host, origin_port, proxy, reply, seg, seed, mode, auth, via_redirect, session }
             })
             .boxed()
     }
